@@ -532,7 +532,61 @@ fn construct(ctx: &Ctx, dom: &Dom, max_len: u32) -> BTreeMap<u32, Val> {
 
 //------------ layer 2: algebra closure ---------------------------------------------------
 
-const OPS: &[&str] = &["union", "intersection", "difference", "intersection_assign", "verify_issued_refuse", "verify_issued_trim", "limit_apply_to"];
+const OPS: &[&str] = &["union", "intersection", "difference", "intersection_assign", "verify_issued_refuse", "verify_issued_trim", "limit_apply_to",
+    "intersection_assign_sole_owner", "intersection_assign_clone_dropped"];
+
+/// A value with the same blocks in an allocation nobody else holds.
+fn rebuild(v: &Val) -> Val { match v { Val::As(b) => Val::As(b.iter().collect()), Val::Ip(b) => Val::Ip(b.iter().collect()) } }
+
+/// Every observer of a value -- not only iteration and == -- must agree with the model's set `want`.
+/// `cheap` = the O(1) ones: is_empty, AsResources/IpResources::blocks (missing iff empty),
+/// verify_covered by a missing issuer, ResourceSet::is_empty / *_opt, from_resources; the full set adds
+/// Display, the block count and asn_count.
+fn observers(dom: &Dom, v: &Val, want: u32, full: bool) -> Result<(), String> {
+    observe(dom.kind, v, want == 0, if full { Some((dom, want)) } else { None })
+}
+
+fn observe(kind: Kind, v: &Val, empty: bool, full: Option<(&Dom, u32)>) -> Result<(), String> {
+    match v {
+        Val::As(b) => {
+            if b.is_empty() != empty { return Err(format!("is_empty() is {}", b.is_empty())) }
+            let r = AsResources::blocks(b.clone());
+            if r.is_present() == empty || r.is_inherited() { return Err(format!("AsResources::blocks(..).is_present() is {}", r.is_present())) }
+            if b.verify_covered(&AsResources::missing()).is_ok() != empty { return Err(format!("verify_covered by a missing issuer is {}", if empty { "refused" } else { "accepted" })) }
+            let rs = ResourceSet::new(b.clone(), Ipv4Blocks::empty(), Ipv6Blocks::empty());
+            if rs.is_empty() != empty || rs.asn_opt().is_some() == empty || rs.to_as_resources().is_present() == empty { return Err(format!("ResourceSet: is_empty() {} asn_opt().is_some() {}", rs.is_empty(), rs.asn_opt().is_some())) }
+            match AsBlocks::from_resources(r) { Ok(x) if x.is_empty() == empty && &x == b => {} _ => return Err("from_resources(blocks(..)) differs".into()) }
+            if (b == &AsBlocks::empty()) != empty { return Err("== empty() disagrees".into()) }
+            if let Some((dom, want)) = full {
+                let want_txt = dom.runs(want).into_iter().map(|(x, y)| dom.block_txt(x, y, true)).collect::<Vec<_>>().join(", ");
+                if b.to_string() != want_txt { return Err(format!("prints as {:?}, the set is {want_txt:?}", b.to_string())) }
+                if b.iter().count() != dom.canon[want as usize].len() { return Err(format!("iter() yields {} blocks", b.iter().count())) }
+                let size = dom.size_of(want);
+                if size <= u32::MAX as u128 && b.asn_count() as u128 != size { return Err(format!("asn_count() is {}, the set has {size} members", b.asn_count())) }
+            }
+        }
+        Val::Ip(b) => {
+            if b.is_empty() != empty { return Err(format!("is_empty() is {}", b.is_empty())) }
+            let r = IpResources::blocks(b.clone());
+            if r.is_present() == empty || r.is_inherited() { return Err(format!("IpResources::blocks(..).is_present() is {}", r.is_present())) }
+            if b.verify_covered(&IpResources::missing()).is_ok() != empty { return Err(format!("verify_covered by a missing issuer is {}", if empty { "refused" } else { "accepted" })) }
+            let v4 = kind == Kind::V4;
+            let rs = if v4 { ResourceSet::new(AsBlocks::empty(), b.clone().into(), Ipv6Blocks::empty()) } else { ResourceSet::new(AsBlocks::empty(), Ipv4Blocks::empty(), b.clone().into()) };
+            let (opt, res) = if v4 { (rs.ipv4_opt().is_some(), rs.to_ip_resources_v4()) } else { (rs.ipv6_opt().is_some(), rs.to_ip_resources_v6()) };
+            if rs.is_empty() != empty || opt == empty || res.is_present() == empty { return Err(format!("ResourceSet: is_empty() {} ipvN_opt().is_some() {opt}", rs.is_empty())) }
+            match IpBlocks::from_resources(r) { Ok(x) if x.is_empty() == empty && &x == b => {} _ => return Err("from_resources(blocks(..)) differs".into()) }
+            if (b == &IpBlocks::empty()) != empty { return Err("== empty() disagrees".into()) }
+            if let Some((dom, want)) = full {
+                let want_txt = dom.runs(want).into_iter().map(|(x, y)| dom.block_txt(x, y, true)).collect::<Vec<_>>().join(", ");
+                let got = if v4 { Ipv4Blocks::from(b.clone()).to_string() } else { Ipv6Blocks::from(b.clone()).to_string() };
+                let got2 = if v4 { b.as_v4().to_string() } else { b.as_v6().to_string() };
+                if got != want_txt || got2 != want_txt { return Err(format!("prints as {got:?} / {got2:?}, the set is {want_txt:?}")) }
+                if b.iter().count() != dom.canon[want as usize].len() { return Err(format!("iter() yields {} blocks", b.iter().count())) }
+            }
+        }
+    }
+    Ok(())
+}
 
 fn apply_op(kind: Kind, op: usize, a: &Val, b: &Val) -> Option<Val> {
     match (a, b) {
@@ -540,7 +594,9 @@ fn apply_op(kind: Kind, op: usize, a: &Val, b: &Val) -> Option<Val> {
             0 => Some(Val::As(a.union(b))),
             1 => Some(Val::As(a.intersection(b))),
             2 => Some(Val::As(a.difference(b))),
-            3 => { let mut c = a.clone(); c.intersection_assign(b); Some(Val::As(c)) }
+            3 => { let mut c = a.clone(); c.intersection_assign(b); Some(Val::As(c)) } // `a` stays alive: the chain is shared
+            7 => { let mut c: AsBlocks = a.iter().collect(); c.intersection_assign(b); Some(Val::As(c)) }
+            8 => { let mut c: AsBlocks = a.iter().collect(); let d = c.clone(); drop(d); c.intersection_assign(b); Some(Val::As(c)) }
             4 => a.verify_issued(&AsResources::blocks(b.clone()), Overclaim::Refuse).ok().map(Val::As),
             5 => a.verify_issued(&AsResources::blocks(b.clone()), Overclaim::Trim).ok().map(Val::As),
             6 => {
@@ -555,6 +611,8 @@ fn apply_op(kind: Kind, op: usize, a: &Val, b: &Val) -> Option<Val> {
             1 => Some(Val::Ip(a.intersection(b))),
             2 => Some(Val::Ip(a.difference(b))),
             3 => { let mut c = a.clone(); c.intersection_assign(b); Some(Val::Ip(c)) }
+            7 => { let mut c: IpBlocks = a.iter().collect(); c.intersection_assign(b); Some(Val::Ip(c)) }
+            8 => { let mut c: IpBlocks = a.iter().collect(); let d = c.clone(); drop(d); c.intersection_assign(b); Some(Val::Ip(c)) }
             4 => a.verify_issued(&IpResources::blocks(b.clone()), Overclaim::Refuse).ok().map(Val::Ip),
             5 => a.verify_issued(&IpResources::blocks(b.clone()), Overclaim::Trim).ok().map(Val::Ip),
             6 => {
@@ -578,7 +636,7 @@ fn apply_op(kind: Kind, op: usize, a: &Val, b: &Val) -> Option<Val> {
 fn model_op(op: usize, ma: u32, mb: u32) -> Option<u32> {
     match op {
         0 => Some(ma | mb),
-        1 | 3 | 5 => Some(ma & mb),
+        1 | 3 | 5 | 7 | 8 => Some(ma & mb),
         2 => Some(ma & !mb),
         4 | 6 => if mb & !ma == 0 { Some(mb) } else { None },
         _ => unreachable!(),
@@ -626,6 +684,8 @@ fn closure(ctx: &Ctx, dom: &Dom, seeds: BTreeMap<u32, Val>) -> ClosureResult {
                             (None, None) => { *oc.entry("refused").or_insert(0) += 1; }
                             (Some(v), Some(w)) => {
                                 if same(&v, &dom.canon[w as usize]) {
+                                    // every observer, not only the block list: the cheap ones always, all of them for the in-place operations and for empty results
+                                    match guard(|| observers(dom, &v, w, op == 3 || op >= 7 || w == 0)) { Ok(Ok(())) => {} Ok(Err(d)) | Err(d) => ctx.fail(&format!("{pfx}.{opname}.observers"), wit(opname, ma, mb), d) }
                                     if have[w as usize].is_none() {
                                         *oc.entry("new-state").or_insert(0) += 1;
                                         local_new.entry(w).or_insert(v);
@@ -641,6 +701,8 @@ fn closure(ctx: &Ctx, dom: &Dom, seeds: BTreeMap<u32, Val>) -> ClosureResult {
                         },
                     }
                 }
+                // the operands themselves (whose clones were just mutated in place) are unchanged
+                if !same(a, &dom.canon[ma as usize]) || !same(b, &dom.canon[mb as usize]) { ctx.fail(&format!("{pfx}.operand_unchanged"), wit("all", ma, mb), "an operand changed while operations ran on its clone".to_string()) }
                 // pair queries
                 match guard(|| (val_eq(a, b), val_contains(a, b))) {
                     Err(p) => ctx.fail(&format!("{pfx}.pair_query.panic"), wit("eq/contains", ma, mb), p),
@@ -871,6 +933,8 @@ fn queries(ctx: &Ctx, dom: &Dom, have: &[Option<Val>]) {
             }
         }
         tally(&mut oc, m != 0, "round-trip-nonempty", "round-trip-empty");
+        evals += 1;
+        ctx.check(&format!("{pfx}.observers"), st, || observers(dom, v, m, true));
         // API siblings: predicates, by-value encoders, take_opt / skip_opt decoders, typed blocks --
         // each must agree with the sibling the checks above already cover
         evals += 1;
@@ -1160,6 +1224,118 @@ fn api_variants(ctx: &Ctx, dom: &Dom) {
     sp.set("blocks", json!(blocks.len())); sp.set("probe_values", json!(pts.len()));
     sp.sample_str(|| format!("{}: {} blocks x {} new bounds x (set_min, set_max)", dom.name, blocks.len(), pts.len()));
     sp.done(true, &format!("all {} probe blocks x {} probe values x 2 mutators, plus all text constructors", blocks.len(), pts.len()));
+}
+
+//------------ iterators the library hands out ---------------------------------------------------------------
+
+#[derive(Clone, Copy, Debug)]
+enum ItOp { Next, Nth(usize), SizeHint, Count, Last, DropEarly }
+const IT_OPS: &[ItOp] = &[ItOp::Next, ItOp::Nth(0), ItOp::Nth(1), ItOp::Nth(3), ItOp::SizeHint, ItOp::Count, ItOp::Last, ItOp::DropEarly];
+
+/// Every sequence of up to three calls on a fresh iterator, then the rest: the items must be those
+/// of the reference list, whatever mixture of next / nth / size_hint / count / last is used.
+fn iter_sequences<I: Iterator, P: PartialEq + std::fmt::Debug>(mk: &dyn Fn() -> I, proj: &dyn Fn(I::Item) -> P, reference: &[P]) -> Result<u64, String> {
+    let n = IT_OPS.len();
+    let mut runs = 0u64;
+    for len in 0..=3u32 { for code in 0..n.pow(len) {
+        let ops: Vec<ItOp> = (0..len).map(|d| IT_OPS[(code / n.pow(d)) % n]).collect();
+        runs += 1;
+        let mut it = Some(mk()); let mut pos = 0usize;
+        let bad = |what: String| Err(format!("calls {ops:?}: {what}"));
+        for op in &ops {
+            let Some(i) = it.as_mut() else { break };
+            let rem = reference.len() - pos.min(reference.len());
+            match *op {
+                ItOp::Next => { let g = i.next().map(proj); if g.as_ref() != reference.get(pos) { return bad(format!("next() gives {g:?}, item {pos} of the reference is {:?}", reference.get(pos))) } pos += 1 }
+                ItOp::Nth(k) => { let g = i.nth(k).map(proj); if g.as_ref() != reference.get(pos + k) { return bad(format!("nth({k}) gives {g:?}, the reference has {:?}", reference.get(pos + k))) } pos += k + 1 }
+                ItOp::SizeHint => { let h = i.size_hint(); if h.0 > rem || h.1.map(|u| u < rem).unwrap_or(false) { return bad(format!("size_hint {h:?} with {rem} items left")) } }
+                ItOp::Count => { let c = it.take().unwrap().count(); if c != rem { return bad(format!("count() gives {c}, {rem} items are left")) } }
+                ItOp::Last => { let g = it.take().unwrap().last().map(proj); let w = if rem > 0 { reference.last() } else { None }; if g.as_ref() != w { return bad(format!("last() gives {g:?}, expected {w:?}")) } }
+                ItOp::DropEarly => { it = None }
+            }
+        }
+        if let Some(i) = it { let rest: Vec<P> = i.map(proj).collect(); let w = &reference[pos.min(reference.len())..]; if rest.as_slice() != w { return bad(format!("the remaining items are {rest:?}, the reference continues with {w:?}")) } }
+    } }
+    Ok(runs)
+}
+
+fn handed_out(ctx: &Ctx, dom: &Dom, have: &[Option<Val>]) {
+    let sp = ctx.space(&format!("{}.handed_out", dom.name),
+        "iterators the library returns -- AsBlocks::iter, iter_asns, AsBlock::iter / into_iter, IpBlocks::iter, to_v4_prefixes / to_v6_prefixes -- on the probe states (empty, everything, every single atom, every complement of one atom; iter_asns only where the set is small): every sequence of <= 3 calls out of next, nth(0), nth(1), nth(3), size_hint, count, last, drop, followed by collecting the rest, against the reference item list; non-trivial = sequences that mix at least two different calls");
+    let k = dom.kind;
+    let universe = dom.blocks.iter().fold(0u32, |m, b| m | b.mask);
+    let mut probes: Vec<u32> = vec![0, universe];
+    for i in 0..dom.natoms() { if universe & (1 << i) != 0 { probes.push(1 << i); probes.push(universe & !(1 << i)) } }
+    probes.sort(); probes.dedup(); probes.retain(|m| have[*m as usize].is_some());
+    let pfx = format!("C03.{}.handed_out", dom.name);
+    probes.par_iter().for_each(|&m| {
+        let v = have[m as usize].as_ref().unwrap();
+        let st = || format!("set={}", dom.show_mask(m));
+        let mut note = |what: &str, r: Result<Result<u64, String>, String>| match r {
+            Ok(Ok(n)) => { sp.evals(n); sp.nontrivial(n.saturating_sub(1 + 8 + 8)); sp.outcome(what) }
+            Ok(Err(d)) | Err(d) => ctx.fail(&format!("{pfx}.{what}"), st(), d),
+        };
+        match v {
+            Val::As(b) => {
+                note("blocks_iter", guard(|| iter_sequences(&|| b.iter(), &blk_as, &dom.canon[m as usize])));
+                if dom.size_of(m) <= 64 {
+                    let want: Vec<u32> = dom.runs(m).into_iter().flat_map(|(x, y)| (x as u32)..=(y as u32)).collect();
+                    note("iter_asns", guard(|| iter_sequences(&|| b.iter_asns(), &|a: Asn| a.into_u32(), &want)));
+                }
+                for blk in b.iter() { if (blk.max().into_u32() - blk.min().into_u32()) < 64 {
+                    let want: Vec<u32> = (blk.min().into_u32()..=blk.max().into_u32()).collect();
+                    note("block_iter", guard(|| iter_sequences(&|| blk.iter(), &|a: Asn| a.into_u32(), &want)));
+                    note("block_into_iter", guard(|| iter_sequences(&|| blk.into_iter(), &|a: Asn| a.into_u32(), &want)));
+                } }
+            }
+            Val::Ip(b) => {
+                note("blocks_iter", guard(|| iter_sequences(&|| b.iter(), &blk_ip, &dom.canon[m as usize])));
+                for blk in b.iter() {
+                    let (lo, hi) = (blk.min().to_bits(), blk.max().to_bits());
+                    // the reference: one full run, accepted only if it is the right decomposition (otherwise the queries space reports it)
+                    let Ok(Some(want)) = guard(|| { let v = to_prefixes(k, lo, hi); check_prefixes(k, lo, hi, &v).ok().map(|_| v.into_iter().map(|p| (p.addr().to_bits(), p.addr_len())).collect::<Vec<(u128, u8)>>()) }) else { continue };
+                    let r = AddressRange::new(addr(lo), addr(hi));
+                    if k == Kind::V4 { note("to_prefixes", guard(|| iter_sequences(&|| r.to_v4_prefixes(), &|p: Prefix| (p.addr().to_bits(), p.addr_len()), &want))) }
+                    else { note("to_prefixes", guard(|| iter_sequences(&|| r.to_v6_prefixes(), &|p: Prefix| (p.addr().to_bits(), p.addr_len()), &want))) }
+                }
+            }
+        }
+    });
+    sp.set("probe_states", json!(probes.len())); sp.set("calls", json!(format!("{IT_OPS:?}")));
+    sp.sample_str(|| format!("{}: {} probe states x {} call sequences per iterator", dom.name, probes.len(), 1 + 8 + 64 + 512));
+    sp.done(true, &format!("{} probe states x every iterator x all call sequences of length <= 3 over {} calls", probes.len(), IT_OPS.len()));
+}
+
+//------------ parameters of the call rather than of the value ----------------------------------------------
+
+/// Display with width / alignment / fill / zero / alternate specs: the text, trimmed of the padding,
+/// must still parse back to the value.
+fn display_params(ctx: &Ctx, dom: &Dom, have: &[Option<Val>]) {
+    let sp = ctx.space(&format!("{}.display_params", dom.name),
+        "every state of the closure printed with the format specs {} (default), {:>3}, {:>48}, {:<48}, {:^48}, {:*^48}, {:048}, {:#}: after trimming the fill characters from both ends the text must parse back (FromStr of the same type) to the same stored blocks; non-trivial = specs other than the default on non-empty sets");
+    let pfx = format!("C03.{}.display_params", dom.name);
+    let states: Vec<u32> = (0..have.len() as u32).filter(|m| have[*m as usize].is_some()).collect();
+    states.par_iter().for_each(|&m| {
+        let v = have[m as usize].as_ref().unwrap();
+        let want = &dom.canon[m as usize];
+        macro_rules! specs { ($x:expr) => { [("{}", format!("{}", $x)), ("{:>3}", format!("{:>3}", $x)), ("{:>48}", format!("{:>48}", $x)), ("{:<48}", format!("{:<48}", $x)), ("{:^48}", format!("{:^48}", $x)), ("{:*^48}", format!("{:*^48}", $x)), ("{:048}", format!("{:048}", $x)), ("{:#}", format!("{:#}", $x))] } }
+        let texts = match guard(|| match v { Val::As(b) => specs!(b), Val::Ip(b) => if dom.kind == Kind::V4 { specs!(Ipv4Blocks::from(b.clone())) } else { specs!(Ipv6Blocks::from(b.clone())) } }) {
+            Ok(t) => t, Err(p) => { ctx.fail(&format!("{pfx}.panic"), format!("set={}", dom.show_mask(m)), p); return } };
+        let plain = texts[0].1.clone();
+        for (spec, t) in texts {
+            sp.eval(); if spec != "{}" && m != 0 { sp.nontrivial(1) }
+            let body = t.trim_matches(|c| c == ' ' || c == '*');
+            // zero fill puts zeros in front; they are padding too unless the plain text starts with them
+            let body = if spec == "{:048}" && !plain.starts_with('0') { body.trim_start_matches('0') } else { body };
+            sp.outcome(if spec == "{}" { "default-spec" } else if body == plain { "padded-spec:same-text-after-trimming" } else { "padded-spec:other-text-after-trimming" });
+            ctx.check(&format!("{pfx}.parse_back"), || format!("set={} spec={spec}", dom.show_mask(m)), || {
+                let back = match (v, dom.kind) { (Val::As(_), _) => AsBlocks::from_str(body).map(Val::As).map_err(|e| e.to_string()),
+                    (_, Kind::V4) => Ipv4Blocks::from_str(body).map(|x| Val::Ip((*x).clone())).map_err(|e| e.to_string()),
+                    _ => Ipv6Blocks::from_str(body).map(|x| Val::Ip((*x).clone())).map_err(|e| e.to_string()) };
+                match back { Ok(x) if same(&x, want) => Ok(()), Ok(x) => Err(format!("printed as {t:?}; that parses back as {}", dom.show_repr(&repr_of(&x)))), Err(e) => Err(format!("printed as {t:?}; that does not parse back: {e}")) } });
+        }
+    });
+    sp.done(true, &format!("{} states x 8 format specs", states.len()));
 }
 
 //------------ BER-only spellings of the RFC 3779 bit strings ----------------------------------------
@@ -1620,14 +1796,15 @@ fn scale(ctx: &Ctx, kind: Kind, name: &str) {
         let wit = |op: &str| format!("op={op} a=(family={} blocks={n}) b=(family={} blocks={n})", FAMILIES[f], FAMILIES[g]);
         let sub = iv_subset(ib, ia);
         for (op, opname) in OPS.iter().enumerate() {
-            let want: Option<Iv> = match op { 0 => Some(iv_union(ia, ib)), 1 | 3 | 5 => Some(iv_inter(ia, ib)), 2 => Some(iv_diff(ia, ib, max)), _ => if sub { Some(ib.clone()) } else { None } };
+            let want: Option<Iv> = match op { 0 => Some(iv_union(ia, ib)), 1 | 3 | 5 | 7 | 8 => Some(iv_inter(ia, ib)), 2 => Some(iv_diff(ia, ib, max)), _ => if sub { Some(ib.clone()) } else { None } };
             match guard(|| apply_op(kind, op, a, b)) {
                 Err(p) => ctx.fail(&format!("{pfx}.{opname}.panic"), wit(opname), p),
                 Ok(got) => match (got, want) {
                     (None, None) => { *oc.entry("refused").or_insert(0) += 1; }
                     (Some(v), Some(w)) => {
                         let wr = iv_repr(kind, &w);
-                        if same(&v, &wr) { *oc.entry(if w.is_empty() { "result-empty" } else { "result-nonempty" }).or_insert(0) += 1; }
+                        if same(&v, &wr) { *oc.entry(if w.is_empty() { "result-empty" } else { "result-nonempty" }).or_insert(0) += 1;
+                            match guard(|| observe(kind, &v, w.is_empty(), None)) { Ok(Ok(())) => {} Ok(Err(d)) | Err(d) => ctx.fail(&format!("{pfx}.{opname}.observers"), wit(opname), d) } }
                         else { let r = repr_of(&v); ctx.fail(&format!("{pfx}.{opname}.{}", if denoted(&r) != wr.iter().map(|b| (b.min, b.max)).collect::<Vec<_>>() { "set" } else { "canonical" }), wit(opname),
                             format!("result has {} blocks, the model {}; first difference at block {}", r.len(), wr.len(), r.iter().zip(wr.iter()).position(|(x, y)| x != y).unwrap_or(r.len().min(wr.len())))) }
                     }
@@ -1713,6 +1890,215 @@ fn as_iteration(ctx: &Ctx) {
     sp.set("blocks", json!(blocks.len()));
     sp.sample_str(|| "AS4294901760-AS4294967295 (2^16 numbers ending at MAX)".to_string());
     sp.done(true, &format!("{} blocks x 2 iterators; whole-space blocks: size_hint in both tiers, full iteration in thorough{}", blocks.len(), if ctx.tier.is_thorough() { " (done)" } else { " (not in this run)" }));
+}
+
+//------------ the history dimension: what ran before on this thread ------------------------------------
+
+type Obs = Result<String, String>;
+type Job<'a> = (String, Box<dyn Fn() -> Obs + Send + Sync + 'a>);
+
+fn obs_val(kind: Kind, v: &Val) -> String {
+    let blocks: Vec<String> = repr_of(v).iter().map(|b| format!("{}:{:x}-{:x}/{}", b.var, b.min, b.max, b.len)).collect();
+    match v {
+        Val::As(b) => format!("text={b} blocks=[{}] empty={} count={} present={} covered_by_missing={}", blocks.join(","), b.is_empty(),
+            guard(|| b.asn_count()).map(|c| c.to_string()).unwrap_or_else(|e| e), AsResources::blocks(b.clone()).is_present(), b.verify_covered(&AsResources::missing()).is_ok()),
+        Val::Ip(b) => format!("text={} blocks=[{}] empty={} present={} covered_by_missing={}", if kind == Kind::V4 { b.as_v4().to_string() } else { b.as_v6().to_string() }, blocks.join(","), b.is_empty(),
+            IpResources::blocks(b.clone()).is_present(), b.verify_covered(&IpResources::missing()).is_ok()),
+    }
+}
+fn obs_set(rs: &ResourceSet) -> String {
+    format!("{rs} || {} || {} || {} || empty={} opts={}{}{}", obs_val(Kind::As, &Val::As(rs.asn().clone())), obs_val(Kind::V4, &Val::Ip((**rs.ipv4()).clone())), obs_val(Kind::V6, &Val::Ip((**rs.ipv6()).clone())),
+        rs.is_empty(), rs.asn_opt().is_some(), rs.ipv4_opt().is_some(), rs.ipv6_opt().is_some())
+}
+fn obs_limit(l: &RequestResourceLimit) -> String {
+    let f = |o: Option<String>| o.unwrap_or_else(|| "unlimited".into());
+    format!("{l} || asn={} v4={} v6={} empty={}", f(l.asn().map(|x| obs_val(Kind::As, &Val::As(x.clone())))), f(l.ipv4().map(|x| obs_val(Kind::V4, &Val::Ip((**x).clone())))), f(l.ipv6().map(|x| obs_val(Kind::V6, &Val::Ip((**x).clone())))), l.is_empty())
+}
+
+struct FmtLimit(usize);
+impl std::fmt::Write for FmtLimit { fn write_str(&mut self, s: &str) -> std::fmt::Result { if s.len() > self.0 { self.0 = 0; Err(std::fmt::Error) } else { self.0 -= s.len(); Ok(()) } } }
+struct IoLimit(usize);
+impl std::io::Write for IoLimit {
+    fn write(&mut self, b: &[u8]) -> std::io::Result<usize> { if self.0 == 0 && !b.is_empty() { return Err(std::io::Error::other("sink full")) } let n = b.len().min(self.0); self.0 -= n; Ok(n) }
+    fn flush(&mut self) -> std::io::Result<()> { Ok(()) }
+}
+
+fn issue_xml(csr: &rpki::ca::csr::RpkiCaCsr, a: &str, v4: &str, v6: &str) -> String {
+    use rpki::ca::provisioning as prov;
+    let mut l = RequestResourceLimit::new();
+    l.with_asn(AsBlocks::from_str("AS64496").unwrap()); l.with_ipv4(Ipv4Blocks::from_str("192.0.2.0/24").unwrap()); l.with_ipv6(Ipv6Blocks::from_str("2001:db8::/32").unwrap());
+    let msg = prov::Message::issue(FromStr::from_str("child").unwrap(), FromStr::from_str("parent").unwrap(), prov::IssuanceRequest::new(prov::ResourceClassName::from("rc0"), l, csr.clone()));
+    msg.to_xml_string().replace("\"AS64496\"", &format!("\"{a}\"")).replace("\"192.0.2.0/24\"", &format!("\"{v4}\"")).replace("\"2001:db8::/32\"", &format!("\"{v6}\""))
+}
+fn issue_limit(xml: &str) -> Obs {
+    use rpki::ca::provisioning as prov;
+    match prov::Message::decode(xml.as_bytes()).map_err(|e| format!("rejected: {e}"))?.into_payload() { prov::Payload::Issue(r) => Ok(obs_limit(r.limit())), _ => Err("another payload".into()) }
+}
+
+/// Subjects: representative evaluations of every construction route and operation, each reduced to
+/// one string of everything observable.
+fn history_subjects<'a>(csr: &'a Option<rpki::ca::csr::RpkiCaCsr>) -> Vec<Job<'a>> {
+    let mut v: Vec<Job<'a>> = Vec::new();
+    let mut add = |n: &str, f: Box<dyn Fn() -> Obs + Send + Sync + 'a>| v.push((n.to_string(), f));
+    let long_as: String = (0..40).map(|i| format!("AS{}-AS{}", 100 * i, 100 * i + 7)).collect::<Vec<_>>().join(", ");
+    for t in ["AS10-AS12".to_string(), "AS1, AS3-AS5, AS4294967295".to_string(), String::new(), long_as, "AS5-AS3".to_string(), "AS1, ASx".to_string()] {
+        let t2 = t.clone();
+        add(&format!("AsBlocks::from_str({:?})", rpki_verif::trunc(&t, 40)), Box::new(move || AsBlocks::from_str(&t).map(|b| obs_val(Kind::As, &Val::As(b))).map_err(|e| e.to_string())));
+        add(&format!("serde AsBlocks({:?})", rpki_verif::trunc(&t2, 40)), Box::new(move || serde_json::from_value::<AsBlocks>(json!(t2)).map(|b| obs_val(Kind::As, &Val::As(b))).map_err(|e| e.to_string())));
+    }
+    for t in ["inherit", "AS1-AS2", ""] { add(&format!("AsResources::from_str({t:?})"), Box::new(move || AsResources::from_str(t).map(|r| format!("{r} inherited={} present={}", r.is_inherited(), r.is_present())).map_err(|e| e.to_string()))) }
+    for t in ["10.0.0.0/8, 192.168.0.0-192.168.0.5", "10.0.0.5-10.0.0.3", "10.0.0.0/8, zz"] {
+        add(&format!("IpBlocks::from_str({t:?})"), Box::new(move || IpBlocks::from_str(t).map(|b| obs_val(Kind::V4, &Val::Ip(b))).map_err(|e| e.to_string())));
+        add(&format!("Ipv4Blocks::from_str({t:?})"), Box::new(move || Ipv4Blocks::from_str(t).map(|b| obs_val(Kind::V4, &Val::Ip((*b).clone()))).map_err(|e| e.to_string())));
+        add(&format!("serde Ipv4Blocks({t:?})"), Box::new(move || serde_json::from_value::<Ipv4Blocks>(json!(t)).map(|b| obs_val(Kind::V4, &Val::Ip((*b).clone()))).map_err(|e| e.to_string())));
+    }
+    for t in ["2001:db8::/32, ::1", "::5-::3", "::ffff:192.0.2.1, 2001:db8::-2001:db8::ffff"] {
+        add(&format!("Ipv6Blocks::from_str({t:?})"), Box::new(move || Ipv6Blocks::from_str(t).map(|b| obs_val(Kind::V6, &Val::Ip((*b).clone()))).map_err(|e| e.to_string())));
+        add(&format!("IpBlocks::from_str({t:?})"), Box::new(move || IpBlocks::from_str(t).map(|b| obs_val(Kind::V6, &Val::Ip(b))).map_err(|e| e.to_string())));
+    }
+    add("ResourceSet::from_strs", Box::new(|| ResourceSet::from_strs("AS1-AS3, AS7", "10.0.0.0/8", "::/0").map(|r| obs_set(&r)).map_err(|e| e.to_string())));
+    add("ResourceSet::from_strs(bad v4)", Box::new(|| ResourceSet::from_strs("AS1-AS3", "10.0.0.0/8, 10.0.0.9-10.0.0.1", "::/0").map(|r| obs_set(&r)).map_err(|e| e.to_string())));
+    add("serde ResourceSet", Box::new(|| serde_json::from_str::<ResourceSet>(r#"{"asn":"AS1-AS3, AS7","ipv4":"10.0.0.0/8","ipv6":"2001:db8::/32"}"#).map(|r| obs_set(&r)).map_err(|e| e.to_string())));
+    add("serde RequestResourceLimit", Box::new(|| serde_json::from_str::<RequestResourceLimit>(r#"{"asn":"AS1-AS3","ipv4":"","ipv6":"none"}"#).map(|l| obs_limit(&l)).map_err(|e| e.to_string())));
+    add("DER AsBlocks", Box::new(|| Mode::Der.decode(der::seq(&[der::int_u(7), der::seq(&[der::int_u(10), der::int_u(20)]), der::int_u(21)]).as_slice(), |c| AsBlocks::take_from(c)).map(|b| obs_val(Kind::As, &Val::As(b))).map_err(|e| e.to_string())));
+    add("DER AsBlocks inverted", Box::new(|| Mode::Der.decode(der::seq(&[der::int_u(7), der::seq(&[der::int_u(20), der::int_u(10)])]).as_slice(), |c| AsBlocks::take_from(c)).map(|b| obs_val(Kind::As, &Val::As(b))).map_err(|e| e.to_string())));
+    add("DER IpBlocks v4", Box::new(|| Mode::Der.decode(der::seq(&[der::ip_prefix_bits(0x0a000000, 8, 32), der::ip_range(0xc0a80000, 0xc0a80005, 32)]).as_slice(), |c| IpBlocks::take_from_with_family(c, AddressFamily::Ipv4)).map(|b| obs_val(Kind::V4, &Val::Ip(b))).map_err(|e| e.to_string())));
+    add("DER IpBlocks v6 family list", Box::new(|| Mode::Der.decode(der::ip_addr_blocks([0, 2], 128, Some(&[der::IpItem::Prefix(0x2001_0db8u128 << 96, 32), der::IpItem::Range(1, 9)])).as_slice(), |c| IpResources::take_families_from(c)).map_err(|e| e.to_string())
+        .and_then(|(_, b)| b.ok_or("no v6".to_string())).and_then(|r| r.to_blocks().map_err(|e| e.to_string())).map(|b| obs_val(Kind::V6, &Val::Ip(b)))));
+    if let Some(csr) = csr {
+        add("XML issue request", Box::new(move || issue_limit(&issue_xml(csr, "AS1-AS3, AS9", "10.0.0.0/8", "2001:db8::/32"))));
+        add("XML issue request (bad v6)", Box::new(move || issue_limit(&issue_xml(csr, "AS1-AS3", "10.0.0.0/8", "2001:db8::/32, ::9-::1"))));
+    }
+    add("FromIterator AsBlocks (bridging)", Box::new(|| Ok(obs_val(Kind::As, &val_from_iv(Kind::As, [(10u128, 20u128), (30, 40), (15, 35), (50, 50)].into_iter())))));
+    add("FromIterator IpBlocks (unsorted)", Box::new(|| Ok(obs_val(Kind::V4, &val_from_iv(Kind::V4, [(8u128, 15u128), (0, 3), (4, 7), (100, 100)].into_iter())))));
+    add("set algebra AS", Box::new(|| { let a = AsBlocks::from_str("AS1-AS10, AS20").map_err(|e| e.to_string())?; let b = AsBlocks::from_str("AS5-AS25").map_err(|e| e.to_string())?; let mut c = a.clone(); c.intersection_assign(&b);
+        Ok(format!("{} # {} # {} # {} # {:?}", obs_val(Kind::As, &Val::As(a.union(&b))), obs_val(Kind::As, &Val::As(a.intersection(&b))), obs_val(Kind::As, &Val::As(a.difference(&b))), obs_val(Kind::As, &Val::As(c)),
+            a.verify_issued(&AsResources::blocks(b.clone()), Overclaim::Trim).map(|x| x.to_string()).map_err(|e| e.to_string()))) }));
+    add("set algebra v6 + limit", Box::new(|| { let a = Ipv6Blocks::from_str("2001:db8::/32").map_err(|e| e.to_string())?; let b = Ipv6Blocks::from_str("2001:db8:8000::/33, ::1").map_err(|e| e.to_string())?;
+        let mut l = RequestResourceLimit::new(); l.with_ipv6(Ipv6Blocks::from_str("2001:db8:8000::/33").map_err(|e| e.to_string())?);
+        let set = ResourceSet::new(AsBlocks::all(), Ipv4Blocks::empty(), a.clone());
+        Ok(format!("{} # {} # {:?}", obs_val(Kind::V6, &Val::Ip(a.intersection(&b))), obs_val(Kind::V6, &Val::Ip(b.difference(&a))), l.apply_to(&set).map(|r| obs_set(&r)).map_err(|e| e.to_string()))) }));
+    add("write forms", Box::new(|| { let rs = ResourceSet::from_strs("AS1-AS3, AS7", "10.0.0.0/8, 192.0.2.1", "2001:db8::/32").map_err(|e| e.to_string())?;
+        Ok(format!("{rs} # {} # {} # {}", serde_json::to_string(&rs).map_err(|e| e.to_string())?, rpki_verif::hex(encode::sequence(rs.asn().encode_ref()).to_captured(Mode::Der).as_slice()), rpki_verif::hex(rs.ipv4().encode_ref().to_captured(Mode::Der).as_slice()))) }));
+    v
+}
+
+/// Predecessors: operations of the same API family chosen so that every exit path is taken --
+/// successes on other values, errors after 0, 1, 2 valid elements at every text / serde / XML / DER
+/// entry point, iterators that panic after k items, sinks that fail after k octets for every k.
+fn history_predecessors<'a>(csr: &'a Option<rpki::ca::csr::RpkiCaCsr>) -> Vec<Job<'a>> {
+    let mut v: Vec<Job<'a>> = Vec::new();
+    let mut add = |n: String, f: Box<dyn Fn() -> Obs + Send + Sync + 'a>| v.push((n, f));
+    fn done(r: Result<(), String>) -> Obs { Ok(match r { Ok(()) => "ok".into(), Err(e) => format!("failed: {e}") }) }
+    add("nothing".into(), Box::new(|| Ok("-".into())));
+    // text with an error after k valid elements, two kinds of error
+    let as_ok = ["AS64496-AS64500", "AS700"]; let v4_ok = ["198.51.100.0/24", "203.0.113.7"]; let v6_ok = ["2001:db8:ffff::/48", "::7"];
+    for k in 0..=2usize { for (kind_i, bad) in [("garbage", ["ASx", "zz", "zz"]), ("inverted", ["AS7-AS3", "10.0.0.9-10.0.0.1", "::9-::1"])] {
+        let mk = |ok: &[&str; 2], bad: &str| { let mut p: Vec<String> = ok.iter().take(k).map(|s| s.to_string()).collect(); p.push(bad.to_string()); p.push(ok[0].to_string()); p.join(", ") };
+        let (ta, t4, t6) = (mk(&as_ok, bad[0]), mk(&v4_ok, bad[1]), mk(&v6_ok, bad[2]));
+        let tag = format!("{kind_i} after {k} valid");
+        { let t = ta.clone(); add(format!("AsBlocks::from_str {tag}"), Box::new(move || done(AsBlocks::from_str(&t).map(|_| ()).map_err(|e| e.to_string())))); }
+        { let t = ta.clone(); add(format!("AsResources::from_str {tag}"), Box::new(move || done(AsResources::from_str(&t).map(|_| ()).map_err(|e| e.to_string())))); }
+        { let t = ta.clone(); add(format!("serde AsBlocks {tag}"), Box::new(move || done(serde_json::from_value::<AsBlocks>(json!(t)).map(|_| ()).map_err(|e| e.to_string())))); }
+        { let t = t4.clone(); add(format!("IpBlocks::from_str v4 {tag}"), Box::new(move || done(IpBlocks::from_str(&t).map(|_| ()).map_err(|e| e.to_string())))); }
+        { let t = t4.clone(); add(format!("Ipv4Blocks::from_str {tag}"), Box::new(move || done(Ipv4Blocks::from_str(&t).map(|_| ()).map_err(|e| e.to_string())))); }
+        { let t = t4.clone(); add(format!("serde Ipv4Blocks {tag}"), Box::new(move || done(serde_json::from_value::<Ipv4Blocks>(json!(t)).map(|_| ()).map_err(|e| e.to_string())))); }
+        { let t = t6.clone(); add(format!("IpBlocks::from_str v6 {tag}"), Box::new(move || done(IpBlocks::from_str(&t).map(|_| ()).map_err(|e| e.to_string())))); }
+        { let t = t6.clone(); add(format!("Ipv6Blocks::from_str {tag}"), Box::new(move || done(Ipv6Blocks::from_str(&t).map(|_| ()).map_err(|e| e.to_string())))); }
+        { let t = t6.clone(); add(format!("serde Ipv6Blocks {tag}"), Box::new(move || done(serde_json::from_value::<Ipv6Blocks>(json!(t)).map(|_| ()).map_err(|e| e.to_string())))); }
+        for which in 0..3usize {
+            let (a, b, c) = (if which == 0 { ta.clone() } else { as_ok[0].to_string() }, if which == 1 { t4.clone() } else { v4_ok[0].to_string() }, if which == 2 { t6.clone() } else { v6_ok[0].to_string() });
+            let fam = ["asn", "ipv4", "ipv6"][which];
+            { let (a, b, c) = (a.clone(), b.clone(), c.clone()); add(format!("ResourceSet::from_strs {fam} {tag}"), Box::new(move || done(ResourceSet::from_strs(&a, &b, &c).map(|_| ()).map_err(|e| e.to_string())))); }
+            { let (a, b, c) = (a.clone(), b.clone(), c.clone()); add(format!("serde ResourceSet {fam} {tag}"), Box::new(move || done(serde_json::from_value::<ResourceSet>(json!({"asn": a, "ipv4": b, "ipv6": c})).map(|_| ()).map_err(|e| e.to_string())))); }
+            { let (a, b, c) = (a.clone(), b.clone(), c.clone()); add(format!("serde RequestResourceLimit {fam} {tag}"), Box::new(move || done(serde_json::from_value::<RequestResourceLimit>(json!({"asn": a, "ipv4": b, "ipv6": c})).map(|_| ()).map_err(|e| e.to_string())))); }
+            if let Some(csr) = csr { let (a, b, c) = (a.clone(), b.clone(), c.clone()); add(format!("XML issue request {fam} {tag}"), Box::new(move || done(issue_limit(&issue_xml(csr, &a, &b, &c)).map(|_| ())))); }
+        }
+    } }
+    // DER with an error after k valid blocks
+    for k in 0..=2usize { for bad in ["inverted", "wrong tag", "truncated"] {
+        let as_items = move || { let mut it: Vec<Vec<u8>> = (0..k).map(|i| der::seq(&[der::int_u(64496 + 10 * i as u128), der::int_u(64499 + 10 * i as u128)])).collect();
+            it.push(match bad { "inverted" => der::seq(&[der::int_u(9), der::int_u(3)]), "wrong tag" => der::octets(&[1]), _ => vec![0x30, 0x06, 0x02, 0x01] }); it };
+        add(format!("DER AsBlocks {bad} after {k} valid"), Box::new(move || done(Mode::Der.decode(der::seq(&as_items()).as_slice(), |c| AsBlocks::take_from(c)).map(|_| ()).map_err(|e| e.to_string()))));
+        add(format!("DER AsResources {bad} after {k} valid"), Box::new(move || done(Mode::Der.decode(der::seq(&[der::ctx(0, true, &der::seq(&as_items()))]).as_slice(), |c| AsResources::take_from(c)).map(|_| ()).map_err(|e| e.to_string()))));
+        for (w, fam) in [(32u8, AddressFamily::Ipv4), (128, AddressFamily::Ipv6)] {
+            let ip_items = move || { let mut it: Vec<Vec<u8>> = (0..k).map(|i| der::ip_range(1000 + 100 * i as u128, 1009 + 100 * i as u128, w)).collect();
+                it.push(match bad { "inverted" => der::ip_range(9, 3, w), "wrong tag" => der::int_u(1), _ => vec![0x30, 0x06, 0x03, 0x02] }); it };
+            add(format!("DER IpBlocks /{w} {bad} after {k} valid"), Box::new(move || done(Mode::Der.decode(der::seq(&ip_items()).as_slice(), |c| IpBlocks::take_from_with_family(c, fam)).map(|_| ()).map_err(|e| e.to_string()))));
+            add(format!("DER IPAddrBlocks /{w} {bad} after {k} valid"), Box::new(move || done(Mode::Der.decode(der::seq(&[der::seq(&[der::octets(&[0, if w == 32 { 1 } else { 2 }]), der::seq(&ip_items())])]).as_slice(), |c| IpResources::take_families_from(c)).map(|_| ()).map_err(|e| e.to_string()))));
+        }
+    } }
+    // collecting from an iterator that panics after k items
+    for k in 0..=3usize {
+        add(format!("AsBlocks from an iterator panicking after {k} items"), Box::new(move || done(guard(|| { let _: AsBlocks = (0..).map(|i: usize| { if i == k { panic!("iterator gives up") } AsBlock::from((asn(64496 + 10 * i as u128), asn(64499 + 10 * i as u128))) }).collect(); }))));
+        add(format!("AsBlocksBuilder::extend from an iterator panicking after {k} items"), Box::new(move || done(guard(|| { let mut b = AsBlocksBuilder::new(); b.extend((0..).map(|i: usize| { if i == k { panic!("iterator gives up") } AsBlock::from(asn(64496 + 2 * i as u128)) })); let _ = b.finalize(); }))));
+        add(format!("IpBlocks from an iterator panicking after {k} items"), Box::new(move || done(guard(|| { let _: IpBlocks = (0..).map(|i: usize| { if i == k { panic!("iterator gives up") } IpBlock::from((addr(1000 + 100 * i as u128), addr(1009 + 100 * i as u128))) }).collect(); }))));
+        add(format!("IpBlocksBuilder::extend from an iterator panicking after {k} items"), Box::new(move || done(guard(|| { let mut b = IpBlocksBuilder::new(); b.extend((0..).map(|i: usize| { if i == k { panic!("iterator gives up") } IpBlock::from((addr(1000 + 100 * i as u128), addr(1009 + 100 * i as u128))) })); let _ = b.finalize(); }))));
+        add(format!("Ipv4Blocks from an iterator panicking after {k} items"), Box::new(move || done(guard(|| { let _: Ipv4Blocks = (0..).map(|i: usize| { if i == k { panic!("iterator gives up") } Ipv4Block::from_str(&format!("198.51.{i}.0/24")).unwrap() }).collect(); }))));
+    }
+    // sinks that fail after k octets, for every k
+    let rs = ResourceSet::from_strs("AS64496-AS64500, AS700", "198.51.100.0/24, 203.0.113.7", "2001:db8:ffff::/48").unwrap();
+    let mut lim = RequestResourceLimit::new(); lim.with_asn(rs.asn().clone()); lim.with_ipv4(rs.ipv4().clone());
+    let texts = [rs.asn().to_string().len(), rs.ipv4().to_string().len(), rs.ipv6().to_string().len(), rs.to_string().len(), lim.to_string().len()];
+    for (what, len) in texts.into_iter().enumerate() { for k in 0..len {
+        let (rs, lim) = (rs.clone(), lim.clone());
+        add(format!("Display {} into a sink of {k} octets", ["AsBlocks", "Ipv4Blocks", "Ipv6Blocks", "ResourceSet", "RequestResourceLimit"][what]), Box::new(move || { use std::fmt::Write; let mut w = FmtLimit(k);
+            done(match what { 0 => write!(w, "{}", rs.asn()), 1 => write!(w, "{}", rs.ipv4()), 2 => write!(w, "{}", rs.ipv6()), 3 => write!(w, "{rs}"), _ => write!(w, "{lim}") }.map_err(|e| e.to_string())) }));
+    } }
+    let ders = [encode::sequence(rs.asn().encode_ref()).to_captured(Mode::Der).len(), rs.ipv4().encode_ref().to_captured(Mode::Der).len(), rs.ipv6().encode_family(AddressFamily::Ipv6).to_captured(Mode::Der).len()];
+    for (what, len) in ders.into_iter().enumerate() { for k in 0..len {
+        let rs = rs.clone();
+        add(format!("DER of {} into a sink of {k} octets", ["AsBlocks", "Ipv4Blocks", "IPv6 family"][what]), Box::new(move || { let mut w = IoLimit(k);
+            done(match what { 0 => encode::sequence(rs.asn().encode_ref()).write_encoded(Mode::Der, &mut w), 1 => rs.ipv4().encode_ref().write_encoded(Mode::Der, &mut w), _ => rs.ipv6().encode_family(AddressFamily::Ipv6).write_encoded(Mode::Der, &mut w) }.map_err(|e| e.to_string())) }));
+    } }
+    let jl = serde_json::to_string(&rs).unwrap().len();
+    for k in 0..jl { let rs = rs.clone(); add(format!("JSON of a ResourceSet into a sink of {k} octets"), Box::new(move || done(serde_json::to_writer(IoLimit(k), &rs).map_err(|e| e.to_string())))); }
+    // successes on other values
+    let long_as: String = (0..300).map(|i| format!("AS{}", 3 * i)).collect::<Vec<_>>().join(", ");
+    add("AsBlocks::from_str of 300 blocks".into(), Box::new(move || done(AsBlocks::from_str(&long_as).map(|_| ()).map_err(|e| e.to_string()))));
+    add("ResourceSet::from_strs success".into(), Box::new(|| done(ResourceSet::from_strs("AS64496-AS64500", "198.51.100.0/24", "2001:db8:ffff::/48").map(|_| ()).map_err(|e| e.to_string()))));
+    v
+}
+
+fn history(ctx: &Ctx) {
+    let sp = ctx.space("history.independent",
+        "sequences on one fresh OS thread (std::thread, never a pool worker): one predecessor (thorough: every ordered pair of predecessors) and then every subject, forwards and backwards; a subject's complete observation (text, stored blocks, is_empty, count, present, covered-by-missing, or the error) must equal the observation of the same subject run first thing on its own fresh thread. Predecessors take every exit path of the API family: parse errors (garbage / inverted range) after 0, 1, 2 valid elements at AsBlocks / AsResources / IpBlocks / Ipv4Blocks / Ipv6Blocks::from_str, their serde forms, each field of ResourceSet::from_strs, serde ResourceSet, serde RequestResourceLimit and the XML issue-request attributes; DER errors (inverted, wrong tag, truncated) after 0, 1, 2 valid blocks; collecting from an iterator that panics after 0..3 items; Display / DER / JSON writers into a sink that fails after k octets for every k; successes on other values; non-trivial = (predecessor, subject) runs where the predecessor failed part-way");
+    let csr = std::fs::read(format!("{}/test-data/ca/drl-csr.der", rpki_verif::engine::report::repo_dir())).ok().and_then(|b| rpki::ca::csr::RpkiCaCsr::decode(b.as_slice()).ok());
+    let (subjects, preds) = match guard(|| (history_subjects(&csr), history_predecessors(&csr))) {
+        Ok(x) => x,
+        Err(p) => { ctx.fail("C03.history.setup", "building the subject and predecessor menus", p); sp.outcome("setup-failed"); sp.outcome("not-run"); sp.evals(2); sp.done(false, "not run"); return }
+    };
+    let eval = |j: &Job| -> Obs { match guard(|| (j.1)()) { Ok(o) => o, Err(p) => Err(format!("panic: {p}")) } };
+    let alone: Vec<Obs> = subjects.iter().map(|s| std::thread::scope(|sc| sc.spawn(|| eval(s)).join().unwrap_or_else(|_| Err("thread died".into())))).collect();
+    for o in &alone { sp.outcome(if o.is_ok() { "subject-accepted" } else { "subject-rejected" }) }
+    let run = |seq: &[usize]| {
+        let got: Vec<(usize, Obs)> = std::thread::scope(|sc| sc.spawn(|| {
+            for &p in seq { let _ = eval(&preds[p]); }
+            let mut out = Vec::new();
+            for i in 0..subjects.len() { out.push((i, eval(&subjects[i]))) }
+            for i in (0..subjects.len()).rev() { out.push((i, eval(&subjects[i]))) }
+            out
+        }).join().unwrap_or_default());
+        if got.is_empty() { ctx.fail("C03.history.independent", format!("after=[{}]", seq.iter().map(|p| preds[*p].0.as_str()).collect::<Vec<_>>().join(" ; ")), "the thread running the sequence died".to_string()) }
+        for (i, o) in got {
+            sp.eval();
+            if o != alone[i] {
+                ctx.fail("C03.history.independent", format!("after=[{}] subject={}", seq.iter().map(|p| preds[*p].0.as_str()).collect::<Vec<_>>().join(" ; "), subjects[i].0),
+                    format!("observed {:?}; run first on a fresh thread the same call gives {:?}", rpki_verif::trunc(&format!("{o:?}"), 400), rpki_verif::trunc(&format!("{:?}", alone[i]), 400)));
+            }
+        }
+        sp.nontrivial(2 * subjects.len() as u64);
+    };
+    (0..preds.len()).into_par_iter().for_each(|p| run(&[p]));
+    sp.outcomes_n("sequences-one-predecessor", preds.len() as u64);
+    if ctx.tier.is_thorough() {
+        let n = preds.len();
+        (0..n * n).into_par_iter().for_each(|i| run(&[i / n, i % n]));
+        sp.outcomes_n("sequences-two-predecessors", (n * n) as u64);
+    }
+    sp.set("subjects", json!(subjects.iter().map(|s| s.0.clone()).collect::<Vec<_>>())); sp.set("predecessors", json!(preds.len()));
+    sp.sample_str(|| format!("predecessors e.g. {:?}", preds.iter().skip(1).step_by(37).take(5).map(|p| p.0.clone()).collect::<Vec<_>>()));
+    sp.done(true, &format!("{} predecessors{} x {} subjects x 2 directions, each sequence on its own OS thread", preds.len(), if ctx.tier.is_thorough() { " and all ordered pairs of them" } else { "" }, subjects.len()));
 }
 
 //------------ ResourceSet: product of the three families ------------------------------------------
@@ -1836,7 +2222,12 @@ fn resource_set(ctx: &Ctx, pts: &[u128], pts6: &[u128], max_len: u32) {
                     match (got, want) {
                         (None, None) => { *oc.entry("refused").or_insert(0) += 1; }
                         (Some(v), Some(w)) => match rs3.diff(&v, w) {
-                            None => { if have[rs3.pack(w)].is_none() { *oc.entry("new-state").or_insert(0) += 1; local_new.entry(rs3.pack(w)).or_insert(v); } else { *oc.entry("known-state").or_insert(0) += 1; } }
+                            None => {
+                                let obs = v.is_empty() == (w == (0, 0, 0)) && v.asn().is_empty() == (w.0 == 0) && v.ipv4().is_empty() == (w.1 == 0) && v.ipv6().is_empty() == (w.2 == 0)
+                                    && v.asn_opt().is_some() == (w.0 != 0) && v.ipv4_opt().is_some() == (w.1 != 0) && v.ipv6_opt().is_some() == (w.2 != 0)
+                                    && v.to_as_resources().is_present() == (w.0 != 0) && v.to_ip_resources_v4().is_present() == (w.1 != 0) && v.to_ip_resources_v6().is_present() == (w.2 != 0);
+                                if !obs { ctx.fail(&format!("C03.rs.closure.{opname}.observers"), wit(opname), format!("is_empty / *_opt / to_*_resources of the result {v} disagree with its content")) }
+                                if have[rs3.pack(w)].is_none() { *oc.entry("new-state").or_insert(0) += 1; local_new.entry(rs3.pack(w)).or_insert(v); } else { *oc.entry("known-state").or_insert(0) += 1; } }
                             Some(laws) => { bad.fetch_add(1, std::sync::atomic::Ordering::Relaxed); for (law, d) in laws { ctx.fail(&format!("C03.rs.closure.{opname}.{law}"), wit(opname), d) } }
                         },
                         (Some(v), None) => ctx.fail(&format!("C03.rs.closure.{opname}.refuse"), wit(opname), format!("the limit exceeds the set, yet apply_to returned {v}")),
@@ -1930,7 +2321,137 @@ fn resource_set(ctx: &Ctx, pts: &[u128], pts6: &[u128], max_len: u32) {
     sp.sample_str(|| format!("rs: {} seed states -> {} states after {} rounds (2^{} = {})", seed_states, order.len(), rounds, na + n4 + n6, nstates_max));
     if order.len() != nstates_max && ctx.violations_so_far() == 0 { ctx.machinery_error(format!("rs: closure reached only {} of {} triples", order.len(), nstates_max)); }
     sp.done(true, &format!("fixpoint after {} rounds: {} states, all ordered pairs x (4 set results + 8 limit patterns)", rounds, order.len()));
-    if order.len() == nstates_max { limit_forms(ctx, &rs3, &have) }
+    if order.len() == nstates_max { limit_forms(ctx, &rs3, &have); json_orders(ctx, &rs3, &have); set_ownership(ctx, &rs3, &have); interactions(ctx, &rs3, &have) }
+}
+
+//------------ JSON member order, setters under shared ownership, policy x shape x depth ----------------------
+
+/// All orders of the members of the JSON forms, through from_str and through serde_json::Value.
+fn json_orders(ctx: &Ctx, rs3: &Rs3, have: &[Option<ResourceSet>]) {
+    let sp = ctx.space("rs.json_member_order",
+        "every ResourceSet state written as a JSON object with its three members in each of the 6 orders, with the canonical names and with the v4 / v6 aliases, read through serde_json::from_str and through serde_json::Value; the same for a RequestResourceLimit naming all three families, and for a ResourceDiff {added, removed} in both orders; the value read must be the state; non-trivial = orders other than the one the serializer writes");
+    let perms: [[usize; 3]; 6] = [[0, 1, 2], [0, 2, 1], [1, 0, 2], [1, 2, 0], [2, 0, 1], [2, 1, 0]];
+    (0..have.len()).into_par_iter().for_each(|i| {
+        let v = have[i].as_ref().unwrap(); let t = rs3.unpack(i);
+        let vals = match guard(|| [json!(v.asn().to_string()), json!(v.ipv4().to_string()), json!(v.ipv6().to_string())]) { Ok(x) => x, Err(p) => { ctx.fail("C03.rs.json_member_order.panic", format!("set={}", rs3.show(t)), p); return } };
+        for (pi, perm) in perms.iter().enumerate() { for alias in [false, true] {
+            let names = if alias { ["asn", "v4", "v6"] } else { ["asn", "ipv4", "ipv6"] };
+            let text = format!("{{{}}}", perm.iter().map(|&k| format!("{}:{}", json!(names[k]), vals[k])).collect::<Vec<_>>().join(","));
+            sp.evals(3); if pi != 0 { sp.nontrivial(1) }
+            sp.outcome(if alias { "alias-names" } else { "canonical-names" });
+            ctx.check("C03.rs.json_member_order", || format!("json={text}"), || {
+                let a: ResourceSet = serde_json::from_str(&text).map_err(|e| format!("from_str refuses: {e}"))?;
+                let val: serde_json::Value = serde_json::from_str(&text).map_err(|e| e.to_string())?;
+                let b: ResourceSet = serde_json::from_value(val).map_err(|e| format!("from_value refuses: {e}"))?;
+                let l: RequestResourceLimit = serde_json::from_str(&text).map_err(|e| format!("as a limit, from_str refuses: {e}"))?;
+                if rs3.diff(&a, t).is_some() || &a != v || &b != v { return Err(format!("reads as {a} / {b}")) }
+                if l.asn() != Some(v.asn()) || l.ipv4() != Some(v.ipv4()) || l.ipv6() != Some(v.ipv6()) { return Err(format!("as a limit it reads as {l}")) }
+                Ok(()) });
+        } }
+        // ResourceDiff in both member orders (against the empty set: added = the state)
+        sp.eval();
+        ctx.check("C03.rs.json_member_order", || format!("diff of {} against the empty set", rs3.show(t)), || {
+            let d = v.difference(&ResourceSet::empty());
+            let j = serde_json::to_value(&d).map_err(|e| e.to_string())?;
+            let swapped = format!("{{\"removed\":{},\"added\":{}}}", j["removed"], j["added"]);
+            let back: rpki::repository::resources::ResourceDiff = serde_json::from_str(&swapped).map_err(|e| format!("{swapped} is refused: {e}"))?;
+            if back != d || back.is_empty() != d.is_empty() || back.to_string() != d.to_string() { return Err(format!("{swapped} reads as another diff")) }
+            Ok(()) });
+    });
+    sp.done(true, &format!("{} states x 6 member orders x 2 name sets x 3 readers", have.len()));
+}
+
+/// Setters and in-place changes on a ResourceSet / limit that is the sole owner of its parts, has a
+/// live clone, or had one dropped just before.
+fn set_ownership(ctx: &Ctx, rs3: &Rs3, have: &[Option<ResourceSet>]) {
+    let sp = ctx.space("rs.ownership",
+        "every ResourceSet state x every subset of a family's atoms as the new part x {set_asn, set_ipv4, set_ipv6, RequestResourceLimit::with_asn / with_ipv4 / with_ipv6} x ownership {the target rebuilt so that it owns its parts alone, the target with a live clone, the target whose clone was dropped just before}: the result must be the set built directly from the parts, every observer agreeing (is_empty, *_opt, to_*_resources), and the live clone must be unchanged; non-trivial = pairs where the new part differs from the old one");
+    let fresh = |v: &ResourceSet| ResourceSet::new(v.asn().iter().collect(), Ipv4Blocks::from(v.ipv4().iter().collect::<IpBlocks>()), Ipv6Blocks::from(v.ipv6().iter().collect::<IpBlocks>()));
+    (0..have.len()).into_par_iter().for_each(|i| {
+        let v = have[i].as_ref().unwrap(); let t = rs3.unpack(i);
+        let mut nt = 0u64; let mut ev = 0u64;
+        let (na, n4, n6) = rs3.bits();
+        for part in 0..3usize { for m in 0..(1u32 << [na, n4, n6][part]) {
+            // the new part: every subset of the family's atoms, taken from a state that has it
+            let u = match part { 0 => (m, 0, 0), 1 => (0, m, 0), _ => (0, 0, m) };
+            let src = have[rs3.pack(u)].as_ref().unwrap();
+            for own in 0..3 { {
+                ev += 1;
+                let want = match part { 0 => (u.0, t.1, t.2), 1 => (t.0, u.1, t.2), _ => (t.0, t.1, u.2) };
+                if want != t { nt += 1 }
+                let r = guard(|| {
+                    let mut x = match own { 0 => fresh(v), _ => v.clone() };
+                    let keep = match own { 1 => Some(x.clone()), 2 => { let c = x.clone(); drop(c); None } _ => None };
+                    match part { 0 => x.set_asn(src.asn().clone()), 1 => x.set_ipv4(src.ipv4().clone()), _ => x.set_ipv6(src.ipv6().clone()) }
+                    let mut l = RequestResourceLimit::new(); l.with_asn(v.asn().clone()); l.with_ipv4(v.ipv4().clone()); l.with_ipv6(v.ipv6().clone());
+                    let lk = l.clone();
+                    match part { 0 => l.with_asn(src.asn().clone()), 1 => l.with_ipv4(src.ipv4().clone()), _ => l.with_ipv6(src.ipv6().clone()) }
+                    (x, keep, l, lk)
+                });
+                match r {
+                    Err(p) => ctx.fail("C03.rs.ownership.panic", format!("target={} source={} part={part} ownership={own}", rs3.show(t), rs3.show(u)), p),
+                    Ok((x, keep, l, lk)) => {
+                        let obs = x.is_empty() == (want == (0, 0, 0)) && x.asn_opt().is_some() == (want.0 != 0) && x.ipv4_opt().is_some() == (want.1 != 0) && x.ipv6_opt().is_some() == (want.2 != 0) && x.to_as_resources().is_present() == (want.0 != 0);
+                        let lim_ok = l.asn().map(|a| same(&Val::As(a.clone()), &rs3.a.canon[want.0 as usize])) == Some(true) && l.ipv4().map(|a| same(&Val::Ip((**a).clone()), &rs3.v4.canon[want.1 as usize])) == Some(true)
+                            && l.ipv6().map(|a| same(&Val::Ip((**a).clone()), &rs3.v6.canon[want.2 as usize])) == Some(true) && lk.asn() == Some(v.asn()) && lk.ipv4() == Some(v.ipv4()) && lk.ipv6() == Some(v.ipv6());
+                        if rs3.diff(&x, want).is_some() || !obs || !lim_ok || keep.map(|k| rs3.diff(&k, t).is_some()).unwrap_or(false) || rs3.diff(v, t).is_some() {
+                            ctx.fail("C03.rs.ownership", format!("target={} source={} part={part} ownership={own}", rs3.show(t), rs3.show(u)), format!("after the setter the set is {x}, the limit {l}"));
+                        }
+                    }
+                }
+            } }
+        } }
+        sp.evals(ev); sp.nontrivial(nt);
+    });
+    sp.outcome("sole-owner"); sp.outcome("live-clone"); sp.outcome("clone-dropped");
+    sp.done(true, &format!("{} states x every new part of each family x 3 ownership situations", have.len()));
+}
+
+/// Trim / refuse policy x shape of the resources (inherit, missing, blocks) x three levels deep.
+fn interactions(ctx: &Ctx, rs3: &Rs3, have: &[Option<ResourceSet>]) {
+    let sp = ctx.space("rs.interactions",
+        "certificate-chain style composition per family: every root set x every chain of three levels, each level = (inherit | missing | blocks(any subset)) x (refuse | trim): the effective resources after each verify_issued are compared literally and through every cheap observer with the model's fold (inherit keeps the issuer's, missing gives none, blocks are intersected under trim and must be contained under refuse); a refusal ends the chain; non-trivial = chains that contain an inherit level and a trim level and a blocks level");
+    for (dom, kind) in [(rs3.a, Kind::As), (rs3.v4, Kind::V4), (rs3.v6, Kind::V6)] {
+        let n = 1u32 << dom.natoms();
+        let vals: Vec<Val> = (0..n).map(|m| { let rs = have[match kind { Kind::As => rs3.pack((m, 0, 0)), Kind::V4 => rs3.pack((0, m, 0)), Kind::V6 => rs3.pack((0, 0, m)) }].as_ref().unwrap();
+            match kind { Kind::As => Val::As(rs.asn().clone()), Kind::V4 => Val::Ip((**rs.ipv4()).clone()), Kind::V6 => Val::Ip((**rs.ipv6()).clone()) } }).collect();
+        let levels: Vec<(Option<u32>, bool)> = std::iter::once(None).chain((0..n).map(Some)).flat_map(|s| [(s, false), (s, true)]).collect(); // None = inherit, Some(0) = missing
+        let nl = levels.len();
+        (0..n as usize * nl).into_par_iter().for_each(|i| {
+            let (root, l1) = ((i / nl) as u32, levels[i % nl]);
+            let mut oc: BTreeMap<&'static str, u64> = BTreeMap::new(); let (mut ev, mut nt) = (0u64, 0u64);
+            for &l2 in &levels { for &l3 in &levels {
+                ev += 1;
+                let chain = [l1, l2, l3];
+                if chain.iter().any(|l| l.0.is_none()) && chain.iter().any(|l| l.1) && chain.iter().any(|l| l.0.map(|m| m != 0).unwrap_or(false)) { nt += 1 }
+                let wit = || format!("family={} root={} chain={}", dom.name, dom.show_mask(root), chain.iter().map(|(s, t)| format!("{}:{}", match s { None => "inherit".to_string(), Some(0) => "missing".to_string(), Some(m) => dom.show_mask(*m) }, if *t { "trim" } else { "refuse" })).collect::<Vec<_>>().join(" > "));
+                let r = guard(|| -> Result<&'static str, String> {
+                    let mut cur_m = root; let mut cur = vals[root as usize].clone();
+                    for (depth, (shape, trim)) in chain.iter().enumerate() {
+                        let mode = if *trim { Overclaim::Trim } else { Overclaim::Refuse };
+                        let want = match shape { None => Some(cur_m), Some(m) => if *trim { Some(m & cur_m) } else if m & !cur_m == 0 { Some(*m) } else { None } };
+                        let got: Option<Val> = match (&cur, shape) {
+                            (Val::As(c), None) => c.verify_issued(&AsResources::inherit(), mode).ok().map(Val::As),
+                            (Val::As(c), Some(m)) => match &vals[*m as usize] { Val::As(x) => c.verify_issued(&AsResources::blocks(x.clone()), mode).ok().map(Val::As), _ => unreachable!() },
+                            (Val::Ip(c), None) => c.verify_issued(&IpResources::inherit(), mode).ok().map(Val::Ip),
+                            (Val::Ip(c), Some(m)) => match &vals[*m as usize] { Val::Ip(x) => c.verify_issued(&IpResources::blocks(x.clone()), mode).ok().map(Val::Ip), _ => unreachable!() },
+                        };
+                        match (got, want) {
+                            (None, None) => return Ok("chain-refused"),
+                            (Some(v), Some(w)) => { if !same(&v, &dom.canon[w as usize]) { return Err(format!("level {depth}: effective resources {}, expected {}", dom.show_repr(&repr_of(&v)), dom.show_mask(w))) }
+                                observers(dom, &v, w, false).map_err(|e| format!("level {depth}: {e}"))?; cur = v; cur_m = w }
+                            (Some(_), None) => return Err(format!("level {depth}: an overclaim was accepted")),
+                            (None, Some(_)) => return Err(format!("level {depth}: covered resources were refused")),
+                        }
+                    }
+                    Ok("chain-accepted")
+                });
+                match r { Ok(Ok(o)) => { *oc.entry(o).or_insert(0) += 1 } Ok(Err(d)) | Err(d) => ctx.fail("C03.rs.interactions", wit(), d) }
+            } }
+            sp.evals(ev); sp.nontrivial(nt); sp.merge_outcomes(&oc);
+        });
+    }
+    sp.done(true, "every root x every chain of 3 levels over (inherit, missing, every subset) x (refuse, trim), for each family");
 }
 
 //------------ value -> form -> value for the request limit --------------------------------------------
@@ -2067,11 +2588,14 @@ fn main() {
         queries(&ctx, dom, &res.have);
         choice_forms(&ctx, dom, &res.have);
         api_variants(&ctx, dom);
+        handed_out(&ctx, dom, &res.have);
+        display_params(&ctx, dom, &res.have);
         if dom.kind.is_ip() { ber_spellings(&ctx, dom) }
     }
     bit_strings(&ctx);
     for (kind, name) in [(Kind::As, "as"), (Kind::V4, "v4"), (Kind::V6, "v6")] { scale(&ctx, kind, name) }
     as_iteration(&ctx);
+    history(&ctx);
     if thorough {
         // wider boundary domain, construction only (2^15 subsets are too many for the pairwise closure)
         for (name, kind) in [("as14", Kind::As), ("v4x14", Kind::V4), ("v6x14", Kind::V6)] {
